@@ -6,6 +6,7 @@ Emits lean/Tickit/Gen/WinFocusSrc.lean:
   * `initCursor…`   — the cursor record `init_window` establishes;
   * `fixes`         — which of the repairs proposed by this engine the working tree carries (read off the source text),
                       so that the model follows the tree being checked;
+  * `termResizeAsModelled` — `on_term_resize` has the shape the model transcribes;
   * `restoreShape`  — the shape of `_do_restore`'s walk and condition, as booleans the theorems name.
 """
 import re
@@ -97,6 +98,29 @@ def run(ctx):
     if ("&&child&&" not in first_if) != ("TICKIT_FOCUSEV_OUT" in fg):
         info["untranslatable"].append("winfocus:_focus_gained partly repaired")
 
+    # ---- on_term_resize: resize of the root window, exposes of the area gained; repaired: a restore request
+    tr = norm(body_of(w, "on_term_resize") or "")
+    if not tr: info["untranslatable"].append("winfocus:on_term_resize")
+    resize_shape = ("tickit_window_resize(win,info->lines,info->cols);" in tr and
+                    "if(info->lines>oldlines){TickitRectdamage={.top=oldlines,.left=0,.lines=info->lines-oldlines,.cols=info->cols,};tickit_window_expose(win,&damage);}" in tr and
+                    "if(info->cols>oldcols){TickitRectdamage={.top=0,.left=oldcols,.lines=oldlines,.cols=info->cols-oldcols,};tickit_window_expose(win,&damage);}" in tr)
+    resize_restore = "_request_restore(root);" in tr
+
+    # ---- the mock terminal's cursor (src/mockterm.c), as `TermCall.onMock` / `TermCursor.mockResize` transcribe it
+    mk = strip(src("src/mockterm.c"))
+    msc = norm(body_of(mk, "mtd_setctl_int") or "")
+    mga = norm(body_of(mk, "mtd_goto_abs") or "")
+    mrs = norm(body_of(mk, "tickit_mockterm_resize") or "")
+    mnew = norm(body_of(mk, "tickit_mockterm_new") or "")
+    mock_setctl = ("caseTICKIT_TERMCTL_CURSORVIS:mtd->cursorvis=!!value;break;" in msc and
+                   "caseTICKIT_TERMCTL_CURSORBLINK:mtd->cursorblink=!!value;break;" in msc and
+                   "caseTICKIT_TERMCTL_CURSORSHAPE:mtd->cursorshape=value;break;" in msc)
+    mock_bound = "#defineBOUND(var,min,max)\\if(var<(min))var=(min);\\if(var>(max))var=(max)" in norm(mk)
+    mock_goto = ("BOUND(line,0,mtd->lines-1);BOUND(col,0,mtd->cols-1);" in mga and "mtd->line=line;mtd->col=col;" in mga)
+    mock_resize = mrs.endswith("tickit_term_set_size((TickitTerm*)mt,newlines,newcols);BOUND(mtd->line,0,mtd->lines-1);BOUND(mtd->col,0,mtd->cols-1);}")
+    mock_init = all(x in mnew for x in ("mtd->line=-1;", "mtd->col=-1;", "mtd->cursorvis=0;", "mtd->cursorblink=0;", "mtd->cursorshape=0;"))
+    if not (msc and mga and mrs and mnew): info["untranslatable"].append("winfocus:mockterm.c cursor functions")
+
     # ---- repairs of other engines that show in this engine's observations (the rectangles flush hands to the root)
     fl = norm(body_of(w, "tickit_window_flush") or "")
     flush_skips = "if(!root_window->is_visible)continue;" in fl
@@ -113,8 +137,14 @@ def run(ctx):
     body += "def initCursorLine : Int := %d\ndef initCursorCol : Int := %d\ndef initCursorShape : Int := %d\ndef initCursorVisible : Bool := %s\ndef initCursorBlink : Int := %d\n" % (
         ic["line"], ic["col"], ic["shape"], b(ic["visible"]), ic["blink"])
     body += "/-- the repairs of fixes/C15_*.patch present in the working tree -/\n"
-    body += "def fixes : Tickit.WinFocus.Fixes := { hiddenRoot := %s, chainRestore := %s, focusEvents := %s, flushSkipsHiddenRoot := %s, flushClipsDamage := %s }\n" % (
-        b(hidden_root), b(chain_restore), b(focus_events), b(flush_skips), b(flush_clips))
+    body += "def fixes : Tickit.WinFocus.Fixes := { hiddenRoot := %s, chainRestore := %s, focusEvents := %s, flushSkipsHiddenRoot := %s, flushClipsDamage := %s, resizeRestore := %s }\n" % (
+        b(hidden_root), b(chain_restore), b(focus_events), b(flush_skips), b(flush_clips), b(resize_restore))
+    body += "/-- `on_term_resize` resizes the root window and exposes the lines and the columns gained, as the model transcribes -/\n"
+    body += "def termResizeAsModelled : Bool := %s\n" % b(resize_shape)
+    body += "/-- src/mockterm.c: `mtd_setctl_int` stores `!!value` for CURSORVIS and CURSORBLINK and the raw value for CURSORSHAPE, each case ending in `break` -/\n"
+    body += "def mockSetctlAsModelled : Bool := %s\n" % b(mock_setctl)
+    body += "/-- src/mockterm.c: `BOUND` is the two-`if` clamp; `mtd_goto_abs` clamps line and column to the screen and stores them; `tickit_mockterm_resize` clamps the stored position last; `tickit_mockterm_new` starts at -1,-1 with the three controls 0 -/\n"
+    body += "def mockCursorAsModelled : Bool := %s\n" % b(mock_bound and mock_goto and mock_resize and mock_init)
     body += "/-- `_do_restore` walks `focused_child` from the root and stops at the first invisible window or missing link -/\n"
     body += "def restoreWalkAsModelled : Bool := %s\n" % b(walk_ok)
     body += "/-- the conjuncts of the condition under which `_do_restore` shows the cursor -/\n"
@@ -122,5 +152,7 @@ def run(ctx):
     body += "end Tickit.Gen.WinFocusSrc\n"
     write("WinFocusSrc", body)
     info["winfocus"] = {"fixes": {"hiddenRoot": hidden_root, "chainRestore": chain_restore, "focusEvents": focus_events,
-                                  "flushSkipsHiddenRoot": flush_skips, "flushClipsDamage": flush_clips},
-                        "fields": len(fields), "walk": walk_ok}
+                                  "flushSkipsHiddenRoot": flush_skips, "flushClipsDamage": flush_clips,
+                                  "resizeRestore": resize_restore},
+                        "fields": len(fields), "walk": walk_ok, "termResize": resize_shape,
+                        "mock": {"setctl": mock_setctl, "bound": mock_bound, "goto": mock_goto, "resize": mock_resize, "init": mock_init}}
